@@ -214,12 +214,12 @@ def _maxrow():
 
 def _build_cel(c, r):
     r = str(r and int(r) or '')
-    if c == _maxcol() and r == _maxrow():  # The last cell keeps its name.
-        return c, r
     return c != _maxcol() and c or '', r != _maxrow() and r or ''
 
 
 def _build_ref(c1, r1, c2, r2, anchor=''):
+    if c1 and c1 == c2 and r1 and r2 and int(r1) == int(r2):  # A single cell.
+        return '{}{}{}'.format(c1, int(r1), anchor)
     (c1, r1), v2 = _build_cel(c1, r1), '{}{}'.format(*_build_cel(c2, r2))
     v1 = '{}{}{}'.format(c1, r1, anchor)
     if v1 == v2 and c1 and r1:
@@ -312,7 +312,7 @@ def fast_range2parts(**kw):
 
 def fast_range2parts_v1(r1, c1, sheet_id, anchor=''):
     n1 = _col2index(c1)
-    ref = '{}{}{}'.format(*_build_cel(c1, r1), anchor).upper()
+    ref = '{}{}{}'.format(c1, int(r1), anchor).upper()  # A cell keeps its name.
     return {
         'r1': r1, 'r2': r1, 'c1': c1, 'c2': c1, 'n1': n1, 'n2': n1, 'ref': ref,
         'name': _build_id(ref, sheet_id), 'anchor': anchor
@@ -329,7 +329,7 @@ def fast_range2parts_v2(r1, c1, r2, c2, sheet_id):
 
 def fast_range2parts_v3(r1, n1, sheet_id, anchor=''):
     c1 = _index2col(n1)
-    ref = '{}{}{}'.format(*_build_cel(c1, r1), anchor).upper()
+    ref = '{}{}{}'.format(c1, int(r1), anchor).upper()  # A cell keeps its name.
     return {
         'r1': r1, 'r2': r1, 'c1': c1, 'c2': c1, 'n1': n1, 'n2': n1, 'ref': ref,
         'name': _build_id(ref, sheet_id), 'anchor': anchor
